@@ -36,7 +36,7 @@ partial def parseRes (s : String) : Option Res :=
   if s == "ok" then some .ok
   else if s == "ctx" then some .ctx
   else if s == "gen" then some .generic
-  else if s == "hang" then some (.typed 999)   -- the run never returned: no configuration explains it
+  else if s == "hang" then some (.typed 999)   -- the run never returned: never accepted (`doRun`)
   else if s.startsWith "r:" then (parseRes (s.drop 2).toString).map .run
   else if s.startsWith "x" then ((s.drop 1).toString.toNat?).map .exit
   else if s.startsWith "t" then ((s.drop 1).toString.toNat?).map .typed
@@ -92,6 +92,7 @@ def event : P Label := do
     | "acquire" => pure Ev.acquire
     | "register" => do let key ← nat; pure (Ev.register key)
     | "waiter" => do let key ← nat; pure (Ev.waiter key)
+    | "waitCycle" => do let key ← nat; pure (Ev.waitCycle key)
     | "wRelease" => pure Ev.wRelease | "wWake" => pure Ev.wWake | "wReacq" => pure Ev.wReacq
     | "depsRelease" => pure Ev.depsRelease | "depsReacq" => pure Ev.depsReacq
     | "depsDone" => do let r ← res; pure (Ev.depsDone r)
@@ -141,9 +142,11 @@ def doRun (args : List String) : Option String := do
   | .error i => some s!"reject step={i} {verdicts}"
   | .ok c =>
     if cs.result = .typed 999 then
-      -- the run never returned: explained iff the configuration reached accepts no label at all
-      -- (`S7.deadlocked_sound`); only cycles through a deduplicated task can get there (`C07_no_deadlock`)
-      (if S7.deadlocked c then some s!"deadlock {verdicts}" else some s!"reject hang-but-not-deadlocked {verdicts}") else
+      -- the run never returned.  No reachable configuration explains that: one that is not final accepts
+      -- a label (`Props.C07.C07_no_deadlock`, every program — the wait that would close a cycle through a
+      -- deduplicated task is refused), one that is final has returned.  (`S7.deadlocked` is reported for
+      -- diagnosis only: `1` would contradict the theorem.)
+      some s!"reject hang stuck={if S7.deadlocked c then 1 else 0} {verdicts}" else
     match finalCheck cs.prog cs.F cs.calls c cs.result with
     | some why => some s!"reject final {why} {verdicts}"
     | none => some s!"accept {verdicts}"
